@@ -141,7 +141,11 @@ func (ic *importClient) Send(ctx context.Context, s capnp.Send) (*capnp.Answer, 
 	if err != nil {
 		ic.c.questions[q.id] = nil
 		ic.c.questionID.remove(uint32(q.id))
+		// The peer never saw the params' descriptors: take back the
+		// export references they added.
+		rl, _ := ic.c.releaseExports(q.paramRefs)
 		ic.c.mu.Unlock()
+		rl.release()
 		params.release()
 		return capnp.ErrorAnswer(s.Method, errorf("send message: %v", err)), func() {}
 	}
